@@ -59,6 +59,7 @@ type NodeSpec struct {
 	Taints        []TaintSpec       `json:"taints,omitempty"`
 	Unschedulable bool              `json:"unschedulable,omitempty"`
 	NotReady      bool              `json:"not_ready,omitempty"`
+	DRADevices    int               `json:"dra_devices,omitempty"` // devices published in the node's ResourceSlice
 }
 
 type QRes struct {
@@ -124,6 +125,7 @@ type PodSpec struct {
 	OtherSched   bool              `json:"other_sched,omitempty"` // pod of another scheduler (no pod group)
 	NoBindRequest bool             `json:"no_bind_request,omitempty"` // placed pod whose (succeeded) BindRequest no longer exists
 	AgeSec       int64             `json:"age_s,omitempty"`       // creation = Epoch - AgeSec
+	Claims       []ClaimRef        `json:"claims,omitempty"`      // DRA resource claims
 }
 
 type TopoConstraint struct {
@@ -170,6 +172,7 @@ type World struct {
 	Topologies      []TopologySpec      `json:"topologies,omitempty"`
 	NodePool        string              `json:"node_pool,omitempty"` // queues and pod groups carry this node-pool label value
 	Workloads       []WorkloadSpec      `json:"workloads"`
+	SharedClaims    []SharedClaimSpec   `json:"shared_claims,omitempty"`
 }
 
 func qty(v int64) resource.Quantity { return *resource.NewQuantity(v, resource.DecimalSI) }
@@ -444,6 +447,7 @@ func BuildPod(w *WorkloadSpec, p PodSpec) *corev1.Pod {
 	default:
 		panic("unknown pod state " + p.State)
 	}
+	addPodClaims(pod, p)
 	return pod
 }
 
@@ -535,6 +539,7 @@ func (w *World) Objects() []runtime.Object {
 	}
 	type ng struct{ node, group string }
 	groups := map[ng]bool{}
+	builtPods := map[string]*corev1.Pod{}
 	for i := range w.Workloads {
 		wl := &w.Workloads[i]
 		if !allOtherSched(wl) {
@@ -545,7 +550,9 @@ func (w *World) Objects() []runtime.Object {
 			out = append(out, pg)
 		}
 		for _, p := range wl.Pods {
-			out = append(out, BuildPod(wl, p))
+			bp := BuildPod(wl, p)
+			builtPods[p.Name] = bp
+			out = append(out, bp)
 			if p.Node != "" && !p.OtherSched && !p.NoBindRequest {
 				out = append(out, BuildSucceededBindRequest(p))
 			}
@@ -571,6 +578,7 @@ func (w *World) Objects() []runtime.Object {
 		out = append(out, BuildReservationPod(g.node, g.group, perNode[g.node]))
 		perNode[g.node]++
 	}
+	out = append(out, w.draObjects(builtPods)...)
 	return out
 }
 
